@@ -200,8 +200,8 @@ def run_impl(p):
                 if lay == "C" and p["vseed"] % 2 == 0 and len(p["starts"]) > 0:
                     # the same windows through the indexing form of the array mixin: arr.view(NPSArray)[starts:ends]
                     from npstructures.mixin import NPSArray
-                    return np.asarray(arg).view(NPSArray)[np.array(p["starts"]):np.array(p["ends"])]
-                return ragged_slice(arg, np.array(p["starts"]), np.array(p["ends"]))
+                    return _twice(lambda ss, es: np.asarray(arg).view(NPSArray)[ss:es], np.array(p["starts"]), np.array(p["ends"]))
+                return _twice(lambda ss, es: ragged_slice(arg, ss, es), np.array(p["starts"]), np.array(p["ends"]))
             n = sum(p["lens"])
             ra = RaggedArray(s[:n].copy(), list(p["lens"]))
             emb = p.get("embed")
@@ -255,7 +255,7 @@ def run_impl(p):
                     kw["starts"] = np.array(p["starts"], dtype=int)
                 if p["ends"] is not None:
                     kw["ends"] = np.array(p["ends"], dtype=int)
-                return ragged_slice(ra, **kw)
+                return _twice(lambda ss, es: ragged_slice(ra, **{k: v for k, v in (("starts", ss), ("ends", es)) if v is not None}), kw.get("starts"), kw.get("ends"))
             if f == "padded":
                 # the documented defaults (fill_value=0, side="right") are left to the library when the case asks for them
                 kw = {}
@@ -265,6 +265,20 @@ def run_impl(p):
                     kw["side"] = p["side"]
                 return ra.as_padded_matrix(**kw)
     return guarded(g)
+
+
+def _twice(call, ss, es):
+    """the window bounds stay the caller's: the call leaves them as they were, and the same call with the same bound arrays
+    gives the same windows again"""
+    ss0 = None if ss is None else ss.copy(); es0 = None if es is None else es.copy()
+    first = call(ss, es)
+    keep = canon(first)
+    for v, v0, name in ((ss, ss0, "starts"), (es, es0, "ends")):
+        if v is not None and not np.array_equal(v, v0):
+            raise engine.Inconsistent("ragged_slice changed the " + name + " array it was given")
+    if canon(call(ss, es)) != keep:
+        raise engine.Inconsistent("ragged_slice with the same bounds gave two different results")
+    return first
 
 
 def _mask_with_history(p, ra, mflat):
